@@ -99,8 +99,10 @@ def run_shard(shard, tier, seed, acc) -> None:
                 harmless.append(byte * 8)
         firsts = [s * 8 for s, e, nm in fm]
         cand = sorted(set(harmless) | set(firsts))
-        if tier == "quick" and len(cand) > 90:
-            cand = sorted(set(harmless[:: max(1, len(harmless) // 45)]) | set(firsts[:: max(1, len(firsts) // 45)]))
+        cap = 90 if tier == "quick" else 130
+        if len(cand) > cap:
+            acc.stat_max("pair_candidates_before_thinning", len(cand))
+            cand = sorted(set(harmless[:: max(1, 2 * len(harmless) // cap)]) | set(firsts[:: max(1, 2 * len(firsts) // cap)]))
         for b1, b2 in itertools.combinations(cand, 2):
             label = ["flip2", b1, b2]
             oc = judge(acc, base, label, bm.apply_simple(base.blob, label), fm)
